@@ -4,7 +4,8 @@
 use crate::driver::{CaseOutcome, CheckCtx, Found, PropMeta, Tier, Violation};
 use crate::hist::monitor::Facts;
 use crate::hist::ops::{case_strategy, HistCase, Profile};
-use proptest::strategy::Strategy;
+use crate::evidence::CaseInfo;
+use proptest::prelude::*;
 use crate::hist::{base_info, run_for};
 
 pub struct HistProp {
@@ -144,6 +145,178 @@ pub fn c02_replay(sub: &str, case: serde_json::Value) -> Result<Option<Violation
     }
 }
 
+
+// ------------------------------------------------------------------------------------------ slot generations (C01, C06)
+// A stale token must stay dead - and a stale event of the batch must stay undeliverable - for every number of reuses
+// of its slot below 65536. Histories are far too short for that, so this sub-check walks one slot through up to 65535
+// occupants (a generated pattern of insert_source / register_dispatcher / adapt_io cycles, every occupant removed again,
+// optionally all of it from inside one callback, i.e. within a single dispatch) and compares every token handed out for
+// the slot with the first one.
+
+#[derive(serde::Serialize, serde::Deserialize, Debug, Clone, Hash, PartialEq, Eq)]
+pub struct GenCase {
+    /// kinds of the successive occupants, repeated cyclically: 0 = insert_source + remove, 1 = register_dispatcher +
+    /// remove, 2 = adapt_io + drop of the adapter
+    pub pattern: Vec<u8>,
+    /// number of reuses of the slot (1..=65535)
+    pub reuses: u32,
+    /// run all cycles from inside the callback of another source (one dispatch) and end with a source over an fd whose
+    /// predecessor had an event collected in that batch
+    pub in_callback: bool,
+}
+
+fn gen_case_strategy() -> impl Strategy<Value = GenCase> {
+    (
+        proptest::collection::vec(0u8..3, 1..=4),
+        prop_oneof![4 => 1u32..=70, 2 => 250u32..=260, 3 => 32_760u32..=32_775, 3 => 65_520u32..=65_535, 2 => 1u32..=65_535],
+        any::<bool>(),
+    )
+        .prop_map(|(pattern, reuses, in_callback)| GenCase { pattern, reuses, in_callback })
+}
+
+pub fn run_generations(c: &GenCase) -> CaseOutcome {
+    use calloop::generic::Generic;
+    use calloop::timer::{TimeoutAction, Timer};
+    use calloop::{EventLoop, Interest, Mode, PostAction, RegistrationToken};
+    crate::driver::HEARTBEAT.fetch_add(1, std::sync::atomic::Ordering::Relaxed);
+    let mut info = CaseInfo::default();
+    info.fingerprint = crate::evidence::fingerprint(c);
+    info.nontrivial = c.reuses >= 256;
+    info.classes.push(if c.in_callback { "generations_inside_one_dispatch" } else { "generations_between_dispatches" });
+    if c.reuses >= 32_768 {
+        info.classes.push("generations_32768_or_more_reuses");
+    }
+    let reuses = c.reuses.clamp(1, 65_535);
+    let pattern = if c.pattern.is_empty() { vec![0] } else { c.pattern.clone() };
+    struct St {
+        viol: Option<Violation>,
+        removed: bool,
+        victim_cb: u32,
+        last_cb: u32,
+    }
+    let mut el: EventLoop<'static, St> = EventLoop::try_new().expect("event loop");
+    let h = el.handle();
+    // slot 0: a ping source that drives the in-callback variant; slot 1: the victim whose token goes stale
+    let (ping, psrc) = calloop::ping::make_ping().expect("make_ping");
+    let (va, vb) = crate::kernel::socketpair();
+    let (la, lb) = crate::kernel::socketpair();
+    let _peers = (crate::kernel::OwnedRaw(vb), crate::kernel::OwnedRaw(lb));
+    let victim_fd = crate::kernel::OwnedRaw(va);
+    let last_fd = crate::kernel::OwnedRaw(la);
+    let cycles = std::rc::Rc::new(move |h: &calloop::LoopHandle<'static, St>, first: RegistrationToken, st: &mut St| {
+        let adapt_fd = crate::kernel::OwnedRaw(crate::kernel::eventfd_nonblock());
+        // `reuses - 1` throw-away occupants, the last reuse is the source over `last_fd`
+        for i in 0..reuses.saturating_sub(1) {
+            let tok = match pattern[i as usize % pattern.len()] % 3 {
+                0 => Some(h.insert_source(Timer::from_duration(std::time::Duration::from_secs(3600)), |_, _, _: &mut St| TimeoutAction::Drop).expect("insert timer")),
+                1 => {
+                    let d = calloop::Dispatcher::new(Timer::from_duration(std::time::Duration::from_secs(3600)), |_, _, _: &mut St| TimeoutAction::Drop);
+                    Some(h.register_dispatcher(d).expect("register dispatcher"))
+                }
+                _ => {
+                    drop(h.adapt_io(crate::kernel::BorrowedRaw(adapt_fd.0)).expect("adapt_io"));
+                    None
+                }
+            };
+            if let Some(tok) = tok {
+                if tok == first && st.viol.is_none() {
+                    st.viol = Some(Violation::new("C01.key", format!("after {} reuses of its slot the stale token of the removed source was handed out again", i + 1)).with_sig("C01.key/stale-token-revived"));
+                }
+                h.remove(tok);
+            }
+            if i % 4096 == 0 && h.enable(&first).is_ok() && st.viol.is_none() {
+                st.viol = Some(Violation::new("C06.dead_token", format!("enable() on the token of the removed source returned Ok after {} reuses of its slot", i + 1)).with_sig("C06.dead_token/revived"));
+            }
+        }
+    });
+    let last_src = std::rc::Rc::new(std::cell::RefCell::new(Some(Generic::new(last_fd, Interest::READ, Mode::Level))));
+    let insert_last: std::rc::Rc<dyn Fn(&calloop::LoopHandle<'static, St>, &mut St, RegistrationToken)> = std::rc::Rc::new(move |h: &calloop::LoopHandle<'static, St>, st: &mut St, first: RegistrationToken| {
+        let tok = h
+            .insert_source(last_src.borrow_mut().take().expect("once"), |_, _, st: &mut St| {
+                st.last_cb += 1;
+                Ok(PostAction::Continue)
+            })
+            .expect("insert last");
+        if tok == first && st.viol.is_none() {
+            st.viol = Some(Violation::new("C01.key", format!("after {reuses} reuses of its slot the stale token of the removed source was handed out again")).with_sig("C01.key/stale-token-revived"));
+        }
+    });
+    // the ping source goes in first (and is pinged first), so that the poller reports it ahead of the victim; its callback
+    // does the work of the in-callback variant (weak handle: no reference cycle through the loop)
+    let victim_tok: std::rc::Rc<std::cell::Cell<Option<RegistrationToken>>> = Default::default();
+    {
+        let weak = h.downgrade();
+        let (cycles2, insert_last2, victim_tok2) = (cycles.clone(), insert_last.clone(), victim_tok.clone());
+        let in_cb = c.in_callback;
+        h.insert_source(psrc, move |_, _, st: &mut St| {
+            let (true, Some(victim), Some(h2)) = (in_cb, victim_tok2.take(), weak.upgrade()) else { return };
+            h2.remove(victim);
+            st.removed = true;
+            cycles2(&h2, victim, st);
+            insert_last2(&h2, st, victim);
+        })
+        .expect("insert ping");
+    }
+    if c.in_callback {
+        ping.ping();
+    }
+    // the victim: readable, so that (in_callback) its event sits in the batch behind the ping's
+    crate::kernel::raw_write(_peers.0 .0, b"x");
+    let victim = h
+        .insert_source(Generic::new(victim_fd, Interest::READ, Mode::Level), |_, _, st: &mut St| {
+            // (should the poller report the victim ahead of the ping: only callbacks after its removal count)
+            if st.removed {
+                st.victim_cb += 1;
+            }
+            Ok(PostAction::Continue)
+        })
+        .expect("insert victim");
+    victim_tok.set(Some(victim));
+    let mut st = St { viol: None, removed: false, victim_cb: 0, last_cb: 0 };
+    if !c.in_callback {
+        h.remove(victim);
+        st.removed = true;
+        cycles(&h, victim, &mut st);
+        insert_last(&h, &mut st, victim);
+    }
+    el.dispatch(Some(std::time::Duration::ZERO), &mut st).expect("dispatch");
+    el.dispatch(Some(std::time::Duration::ZERO), &mut st).expect("dispatch");
+    let mut viol = st.viol.take();
+    if viol.is_none() && st.victim_cb > 0 {
+        viol = Some(Violation::new("C06.after_remove", format!("the removed source was called back {} time(s) after its removal", st.victim_cb)).with_sig("C06.after_remove/generations"));
+    }
+    // the last occupant's fd never became readable: a callback can only be the removed source's stale event
+    if viol.is_none() && st.last_cb > 0 {
+        viol = Some(
+            Violation::new("C01.cause", format!("after {reuses} reuses of the slot its new occupant was called back {} time(s) for an event of the removed source (its own fd was never readable)", st.last_cb))
+                .with_sig("C01.cause/stale-event-after-slot-reuse"),
+        );
+    }
+    if viol.is_none() && h.enable(&victim).is_ok() {
+        viol = Some(Violation::new("C06.dead_token", format!("enable() on the token of the removed source returned Ok after {reuses} reuses of its slot")).with_sig("C06.dead_token/revived"));
+    }
+    drop(ping);
+    (info, viol)
+}
+
+fn slot_generations(ctx: &CheckCtx, _hp: &'static HistProp) -> Option<Found> {
+    if let Some(f) = ctx.run_replays::<GenCase, _>("generations", run_generations) {
+        return Some(f);
+    }
+    // fixed boundary cases first, then generated ones
+    for (reuses, in_callback) in [(255u32, false), (256, true), (32_767, true), (32_768, true), (32_768, false), (65_535, false), (65_535, true)] {
+        for pattern in [vec![0u8], vec![2, 0], vec![1, 2, 0]] {
+            let c = GenCase { pattern, reuses, in_callback };
+            let (info, v) = run_generations(&c);
+            ctx.col.record(&info, || serde_json::to_value(&c).unwrap());
+            if let Some(v) = v {
+                return Some(Found { sub: "generations".into(), violation: v, case: serde_json::to_value(&c).unwrap(), replay_path: None });
+            }
+        }
+    }
+    ctx.search("generations", gen_case_strategy(), ctx.tier.pick(400, 8_000), 8, None, run_generations)
+}
+
 // ------------------------------------------------------------------------------------------ C01
 
 pub static C01_META: PropMeta = PropMeta {
@@ -200,7 +373,7 @@ pub static C01: HistProp = HistProp {
     epoll_each_step: false,
     workers: 8,
     table: None,
-    extra: None,
+    extra: Some(slot_generations),
 };
 
 // ------------------------------------------------------------------------------------------ C02
@@ -338,7 +511,7 @@ pub static C06: HistProp = HistProp {
     epoll_each_step: false,
     workers: 8,
     table: None,
-    extra: None,
+    extra: Some(slot_generations),
 };
 
 // ------------------------------------------------------------------------------------------ C07
